@@ -3,6 +3,7 @@ from common import *
 import xcheck
 import ileave
 import ileave2
+import tchain
 import gen
 import tgen
 import c04
@@ -132,6 +133,7 @@ def run(tier, seed, replay=None):
         cases = (timed_cases(tier, rng) + chain_cases(tier, rng) + op2_cases(tier, rng) + flatten_cases(tier, rng)
                  + ileave.cases("subject", tier, rng, "is", only=lambda setup, threads: any("unsub" in t for t in threads))
                  + ileave2.cases(tier, rng, only_unsub=True)
+                 + tchain.cases(tier, rng)
                  + [("x1", "(case x1 unsub_race %d)" % (10 if tier == "quick" else 60), {"kind": "threads", "op": "subscribe_on", "how": "pool"})])
     res = correspond(rep, "C02", cases, "C02 (silence after unsubscribe: timed_ok / cut specifications / silent_after_unsub)")
     xcheck.cross_check(rep, "C02", cases, res, 40 if tier == "quick" else 400)
